@@ -161,11 +161,11 @@ End ==
      ELSE IF ~Ev.polok \/ Ev.pick # pol THEN Reject("end: returned policy is not the policy of the last improvement")
      ELSE IF ~(\A s \in States(M) : \E a \in GreedySet(M, V, s) : a \in ToSet(Ev.pol[s]))
        THEN Reject("end: returned policy is not greedy for the returned values")
-     ELSE IF stopped /\ T.cert.kind = "discounted" /\ ~CertOK
+     ELSE IF stopped /\ i = Len(T.ev) /\ T.cert.kind = "discounted" /\ ~CertOK
        THEN Reject("MACHINERY: certificate supplied by the harness does not verify")
-     ELSE IF stopped /\ T.cert.kind = "discounted" /\ lec /\ ~PILossOK
+     ELSE IF stopped /\ i = Len(T.ev) /\ T.cert.kind = "discounted" /\ lec /\ ~PILossOK
        THEN Reject("end: converged, but the returned policy is not within the documented error bound of optimal")
-     ELSE IF stopped /\ T.cert.kind = "discounted" /\ lec /\ T.test = "max_diff"
+     ELSE IF stopped /\ i = Len(T.ev) /\ T.cert.kind = "discounted" /\ lec /\ T.test = "max_diff"
              /\ ~(\A s \in States(M) :
                     Abs(V[s] * T.cert.cd[s] - T.cert.vpn[s]) * M.GN <= T.eps * M.GD * T.cert.cd[s])
        THEN Reject("end: converged under max_diff, but the returned values are not within epsilon/gamma of the returned policy's value")
